@@ -2,6 +2,8 @@ package main
 
 import (
 	"fmt"
+	"io/ioutil"
+	"os"
 	"strings"
 )
 
@@ -126,6 +128,22 @@ func init() {
 				}
 			}
 			c03all(c, "1 NAME first line at level 1\n"+tb.String(), "long-tail-after-bad-line")
+		}
+		// the documented entry points (document.go) on the corpus and on generated streams
+		if dir, err := ioutil.TempDir("", "c03entry-"); err == nil {
+			texts := append([]string{}, corpus...)
+			for i := 0; i < c.N(400, 8000); i++ {
+				switch i % 3 {
+				case 0:
+					texts = append(texts, decGenText(c.R, 15, true))
+				case 1:
+					texts = append(texts, decMutate(c.R, decRealistic))
+				default:
+					texts = append(texts, c03RandomBytes(c.R))
+				}
+			}
+			c03entry(c, dir, texts)
+			os.RemoveAll(dir)
 		}
 		// the command line's decoder options (cmd/gedcom/diff.go)
 		c03CLI(c)
